@@ -1357,3 +1357,81 @@ def m_min_by_key(I, c, args, fr):
             if (c.name == 'max_by_key' and r >= 0) or (c.name == 'min_by_key' and r < 0):
                 best, bk = x, k
     return none() if best is STOP else some(best)
+
+# ---------------------------------------------------------------------------- sorting / de-duplication (std docs: sort is stable; the
+# unstable variants may order equal elements differently - the stable order is the one modelled)
+def _ord_idx(I, r):
+    """-1/0/1 of an Ordering value (concrete variant or symbolic discriminant)"""
+    if r.variant in ('Less', 'Equal', 'Greater'):
+        return {'Less': -1, 'Equal': 0, 'Greater': 1}[r.variant]
+    v = r.vidx
+    if is_sym(v):
+        v = I.ctx.concretize(v, 'ordering')
+    return -1 if v in (-1, 255) else v
+
+def _insertion_sort(items, less_or_eq):
+    out = []
+    for x in items:
+        k = len(out)
+        while k > 0 and not less_or_eq(out[k - 1], x):
+            k -= 1
+        out.insert(k, x)
+    return out
+
+def _sort_target(args):
+    s = deref(args[0])
+    if isinstance(s, VecObj):
+        return s.v, 0, len(s.v)
+    s = as_slice(args[0])
+    return s.back, s.lo, s.hi
+
+@model('slice::sort', 'slice::sort_unstable', 'Vec::sort', 'Vec::sort_unstable')
+def m_slice_sort(I, c, args, fr):
+    back, lo, hi = _sort_target(args)
+    back[lo:hi] = _insertion_sort(back[lo:hi], lambda a, b: val_cmp(I, a, b) <= 0)
+    return UNIT
+
+@model('slice::sort_by', 'slice::sort_unstable_by', 'Vec::sort_by', 'Vec::sort_unstable_by')
+def m_slice_sort_by(I, c, args, fr):
+    back, lo, hi = _sort_target(args)
+    back[lo:hi] = _insertion_sort(back[lo:hi], lambda a, b: _ord_idx(I, I.call_value(args[1], [ref_to(a), ref_to(b)])) <= 0)
+    return UNIT
+
+@model('slice::sort_by_key', 'slice::sort_unstable_by_key', 'slice::sort_by_cached_key', 'Vec::sort_by_key', 'Vec::sort_unstable_by_key', 'Vec::sort_by_cached_key')
+def m_slice_sort_by_key(I, c, args, fr):
+    back, lo, hi = _sort_target(args)
+    keyed = [(I.call_value(args[1], [ref_to(x)]), x) for x in back[lo:hi]]
+    back[lo:hi] = [x for _, x in _insertion_sort(keyed, lambda a, b: val_cmp(I, a[0], b[0]) <= 0)]
+    return UNIT
+
+@model('slice::is_sorted')
+def m_slice_is_sorted(I, c, args, fr):
+    back, lo, hi = _sort_target(args)
+    xs = back[lo:hi]
+    return all(val_cmp(I, a, b) <= 0 for a, b in zip(xs, xs[1:]))
+
+@model('Vec::dedup_by_key')
+def m_vec_dedup_by_key(I, c, args, fr):
+    v = deref(args[0])
+    out = []; lastk = None
+    for x in v.v:
+        k = I.call_value(args[1], [ref_to(x)])
+        if out and I.ctx.decide(val_eq(I, lastk, k)):
+            I.drop_value(x)
+        else:
+            out.append(x); lastk = k
+    v.v[:] = out
+    return UNIT
+
+@model('Vec::dedup_by')
+def m_vec_dedup_by(I, c, args, fr):
+    v = deref(args[0])
+    out = []
+    for x in v.v:
+        # same_bucket(a, b): a is the current element, b the previous retained one
+        if out and I.ctx.decide(I.call_value(args[1], [ref_to(x), ref_to(out[-1])])):
+            I.drop_value(x)
+        else:
+            out.append(x)
+    v.v[:] = out
+    return UNIT
